@@ -18,7 +18,7 @@ func init() {
 	core.Register(&core.Property{
 		ID:         "C07",
 		Exhaustive: true,
-		Rule:       "exhaustive: every arithmetic/comparison/equality/type/polarity/indexer operator x operand position, and every name of the function table (base + experimental) x every arity Compile accepts x (input | each argument position), with empty supplied as `{}`, an absent element path and an empty %env collection. Expected: empty input => empty (except documented aggregates); empty single-value argument => empty or error, never a value; `&` treats empty as ''. distinct_nontrivial = distinct (operator-or-function, arity, position, empty-form) programs",
+		Rule:       "exhaustive: every arithmetic/comparison/equality/type/polarity/indexer operator x operand position, and every name of the function table (base + experimental) x every arity Compile accepts x (input | each argument position), with empty supplied as `{}`, an absent element path and an empty %env collection; empty arguments also with receivers of every System / FHIR kind, and through a variable that held a value in the previous evaluation of the same source. Expected: empty input => empty (except documented aggregates); empty single-value argument => empty or error, never a value; `&` treats empty as ''. distinct_nontrivial = distinct (operator-or-function, arity, position, empty-form) programs",
 		Assumptions: []string{"unimplemented placeholder functions are excluded (C16 covers them)",
 			"collection-valued / criterion arguments (where, select, all, exists, intersect, exclude, iif) are not 'single value required'",
 			"functions added to the table later are probed with integer arguments"},
@@ -29,7 +29,7 @@ func init() {
 			if m.Cover["func-empty-input"] < 60 {
 				r = append(r, fmt.Sprintf("only %d functions probed with empty input", m.Cover["func-empty-input"]))
 			}
-			for _, k := range []string{"op-empty", "concat", "arg-empty", "var-then-empty"} {
+			for _, k := range []string{"op-empty", "concat", "arg-empty", "arg-empty-other-receiver", "var-then-empty"} {
 				if m.Cover[k] == 0 {
 					r = append(r, "never observed: "+k)
 				}
@@ -238,6 +238,25 @@ func runC07(env *core.Env) {
 					}
 					c07Prog(env, fmt.Sprintf("fn:%s/%d/arg%d", t.Name, ar, pos), call, want)
 					env.Cover("arg-empty")
+				}
+				// the same with receivers of every kind: whether the argument is looked at must not depend on the input's type
+				if recv != "" && !strings.Contains(recv, "$") {
+					for _, rc := range []string{"5", "1.5", "true", "'abc'", "'5'", "(5 'mg')", "@2020-01-01", "@2020-01-01T10:00:00Z", "@T10:30", "%fint", "%fdec", "%fstr", "%fqty", "%name"} {
+						if rc == recv {
+							continue
+						}
+						a2 := append([]string{}, args[:ar]...)
+						a2[pos] = emptyForms[(pos+len(rc))%len(emptyForms)]
+						if !mine() {
+							continue
+						}
+						want := "total-only"
+						if single {
+							want = "empty-or-error"
+						}
+						c07Prog(env, fmt.Sprintf("fn:%s/%d/arg%d/other-receiver", t.Name, ar, pos), rc+"."+t.Name+"("+strings.Join(a2, ", ")+")", want)
+						env.Cover("arg-empty-other-receiver")
+					}
 				}
 			}
 		}
